@@ -130,7 +130,7 @@ fn main() {
         });
         s.finish();
     }
-    let total = s.args.budget(3_000, 150_000);
+    let total = s.args.budget(40_000, 2_000_000);
     let len_max = if s.args.thorough() { 60 } else { 40 };
     for (focus, name, share) in focus_for(&prop) {
         let n = (total * share / 100).max(1);
